@@ -46,6 +46,14 @@
 (*                       void                                              *)
 (*   IncMetaNotSaved     (C05) metadata applied by a condition-failed      *)
 (*                       increment is not written: lost by close+reload    *)
+(*   DeleteRecreateResurrects (C05) write-behind: delete of a filed key, re-create, *)
+(*                       delete again before the flush: the second delete  *)
+(*                       only dequeues the new record, the first delete's  *)
+(*                       marker was dropped by the re-create, so the old   *)
+(*                       record is back after close+reload                 *)
+(*   StaleExpiryIndex    (C30) an expiry changed without a save (condition-failed   *)
+(*                       increment) is not re-indexed: the expiration index and   *)
+(*                       the claims built on it disagree with Get / filters       *)
 (*   PreEpochInvisible   (C30) a negative expiry is hidden from reads      *)
 (***************************************************************************)
 EXTENDS Integers, Sequences, FiniteSets, TLC
@@ -59,12 +67,16 @@ VARIABLES store,   \* key -> record                       (the treasures of the 
           open,    \* the swamp instance is summoned in memory
           disk,    \* key -> record as written to the swamp's file (persistent modes; C05)
           wq,      \* keys queued for the writer (write-behind mode: written at close)
+          dq,      \* keys whose delete marker is queued for the writer
+          filed,   \* keys whose in-memory object has a file pointer (loaded from, or written to, the file)
+          xb,      \* as built: the expiration index has been built (it is built lazily and dropped at close)
+          xk,      \* as built: key -> sort key (expiry at the time of indexing) of the indexed records
           mode,    \* "mem" in-memory, "p0" persistent immediate write, "pw" persistent write-behind
           last,    \* the last request and its outcome (observation)
           ops      \* number of calls so far (bounded in model checking)
 
-vars == <<store, pend, open, disk, wq, mode, last, ops>>
-view == <<store, pend, open, disk, wq, mode>>
+vars == <<store, pend, open, disk, wq, dq, filed, xb, xk, mode, last, ops>>
+view == <<store, pend, open, disk, wq, dq, filed, xb, xk, mode>>
 
 D(n) == n \in Dev
 
@@ -104,8 +116,9 @@ TypeOf(c) == IF c.void THEN "void" ELSE IF HasScalar(c) THEN c.t ELSE IF c.hs TH
 CloneOf(c) == IF HasScalar(c) THEN CScalar(c.t, c.v) ELSE IF c.hs THEN CSlice(c.u) ELSE IF c.void THEN CVoid ELSE CNil
 Normal(c) == c = CVoid \/ (c.t \in ScalarTypes /\ c = CScalar(c.t, c.v)) \/ c = CSlice(c.u)
 
-Fresh == [c |-> CNil, ca |-> 0, cb |-> 0, ua |-> 0, ub |-> 0, ea |-> 0, dirty |-> FALSE]
-Clean(r) == [r EXCEPT !.dirty = FALSE]
+\* dirty / xf are the sticky change flags of the in-memory object (any flag / the expiry flag)
+Fresh == [c |-> CNil, ca |-> 0, cb |-> 0, ua |-> 0, ub |-> 0, ea |-> 0, dirty |-> FALSE, xf |-> FALSE]
+Clean(r) == [r EXCEPT !.dirty = FALSE, !.xf = FALSE]
 SameData(a, b) == Clean(a) = Clean(b)
 
 \* C30: the one definition of "expired"
@@ -144,7 +157,8 @@ Summon(S) == [S EXCEPT !.open = TRUE]
 \* swamp never stays
 Settle(S) == IF D("EmptySwampExists") THEN S
              ELSE IF IsEmpty(S.store) THEN [S EXCEPT !.open = FALSE, !.pend = NoMap] ELSE [S EXCEPT !.open = TRUE]
-Destroyed(S) == [S EXCEPT !.store = NoMap, !.pend = NoMap, !.open = FALSE, !.disk = NoMap, !.wq = {}]
+Destroyed(S) == [S EXCEPT !.store = NoMap, !.pend = NoMap, !.open = FALSE, !.disk = NoMap, !.wq = {}, !.dq = {}, !.filed = {},
+                             !.xb = FALSE, !.xk = NoMap]
 AutoDestroy(S) == IF IsEmpty(S.store) THEN Destroyed(S) ELSE S
 
 \* the object CreateTreasure(k) hands out
@@ -152,23 +166,52 @@ Obj(S, k) == IF Has(S.store, k) THEN S.store[k]
              ELSE IF D("IncVoidSideEffect") /\ Has(S.pend, k) THEN S.pend[k] ELSE Fresh
 PendUsed(S, k) == D("IncVoidSideEffect") /\ ~Has(S.store, k) /\ Has(S.pend, k)
 
-\* persistent swamps: a save queues the record for the writer; p0 writes at once, pw at close.
-\* disk is the file content as of the last write; unsaved in-memory changes are not in it.
+\* persistent swamps: a save queues the record for the writer; p0 flushes the whole queue (delete markers
+\* included) at once, pw at close.  disk is the file content as of the last flush.
+Flush(S) ==
+  LET gone == [k \in (DOMAIN S.disk) \ S.dq |-> S.disk[k]]
+      keys == (DOMAIN gone) \cup (S.wq \cap DOMAIN S.store)
+  IN [S EXCEPT !.disk = [k \in keys |-> IF k \in S.wq /\ Has(S.store, k) THEN Clean(S.store[k]) ELSE gone[k]],
+               !.wq = {}, !.dq = {}, !.filed = @ \cup (S.wq \cap DOMAIN S.store)]
 Written(S, k, r) == IF S.mode = "mem" THEN S
-                    ELSE IF S.mode = "p0" THEN [S EXCEPT !.disk = Put(S.disk, k, Clean(r))]
-                    ELSE [S EXCEPT !.wq = @ \cup {k}]
-Unwritten(S, k) == IF S.mode = "mem" THEN S ELSE [S EXCEPT !.disk = Drop(S.disk, k), !.wq = @ \ {k}]
+                    ELSE LET S1 == [S EXCEPT !.wq = @ \cup {k}] IN IF S.mode = "p0" THEN Flush(S1) ELSE S1
+\* a new object for a key: it has no file pointer, and SaveFunction drops whatever was queued under the key
+\* (with it the delete marker of the key's previous life)
+Recreated(S, k) == IF S.mode = "mem" THEN S
+                   ELSE [S EXCEPT !.filed = @ \ {k}, !.wq = @ \ {k}, !.dq = IF D("DeleteRecreateResurrects") THEN @ \ {k} ELSE @]
+\* deleteHandler: a filed record gets a delete marker, a never-written one is just taken off the queue
+Unwritten(S, k) == IF S.mode = "mem" THEN S
+                   ELSE IF k \in S.filed THEN [S EXCEPT !.dq = @ \cup {k}, !.wq = @ \ {k}, !.filed = @ \ {k}]
+                   ELSE [S EXCEPT !.wq = @ \ {k}]
+
+\* the expiration index.  Strictly it is the current view of the records; as built (StaleExpiryIndex) it is
+\* a lazily built structure that only a save (of an object whose expiry flag is raised) or a delete updates.
+Tracking == D("StaleExpiryIndex")
+CurIdx(st) == [k \in {x \in DOMAIN st : st[x].ea # 0} |-> st[k].ea]
+Idx(S) == IF Tracking /\ S.xb THEN S.xk ELSE CurIdx(S.store)
+Built(S) == IF Tracking /\ ~S.xb THEN [S EXCEPT !.xb = TRUE, !.xk = CurIdx(S.store)] ELSE S
+\* every insertion re-sorts the whole index by the current values
+Resorted(S, ks) == [S EXCEPT !.xk = [k \in ks \cap DOMAIN S.store |-> S.store[k].ea]]
+StaleDv(S) == IF Idx(S) # CurIdx(S.store) THEN {"StaleExpiryIndex"} ELSE {}
+Orders(idx) == {s \in [1..Cardinality(DOMAIN idx) -> DOMAIN idx] :
+                  /\ \A i, j \in DOMAIN s : i # j => s[i] # s[j]
+                  /\ \A i, j \in DOMAIN s : i < j => idx[s[i]] <= idx[s[j]]}
 
 \* treasure.Save through swamp.SaveFunction: status and new state
 SaveObj(S, k, r, changedNow) ==
   LET isNew == ~Has(S.store, k)
       flag == changedNow \/ (D("StickyDirty") /\ r.dirty)
-      r2 == [r EXCEPT !.dirty = IF D("StickyDirty") THEN flag ELSE FALSE]
-      S1 == [S EXCEPT !.store = Put(S.store, k, r2), !.pend = Drop(S.pend, k)]
+      r2 == [r EXCEPT !.dirty = IF D("StickyDirty") THEN flag ELSE FALSE, !.xf = IF Tracking THEN @ ELSE FALSE]
+      S0 == IF isNew THEN Recreated(S, k) ELSE S
+      S1 == [S0 EXCEPT !.store = Put(S.store, k, r2), !.pend = Drop(S.pend, k)]
       S2 == IF isNew \/ flag THEN Written(S1, k, r2) ELSE S1
-  IN [S |-> S2, status |-> IF isNew THEN "NEW" ELSE IF flag THEN "UPDATED" ELSE "NOTHING_CHANGED", flag |-> flag]
+      S3 == IF ~(Tracking /\ S2.xb) THEN S2
+            ELSE IF isNew THEN (IF r2.ea # 0 THEN Resorted(S2, (DOMAIN S2.xk) \cup {k}) ELSE S2)
+            ELSE IF flag /\ r2.xf THEN (IF r2.ea # 0 THEN Resorted(S2, (DOMAIN S2.xk) \cup {k}) ELSE [S2 EXCEPT !.xk = Drop(S2.xk, k)])
+            ELSE S2
+  IN [S |-> S3, status |-> IF isNew THEN "NEW" ELSE IF flag THEN "UPDATED" ELSE "NOTHING_CHANGED", flag |-> flag]
 
-DeleteKey(S, k) == Unwritten([S EXCEPT !.store = Drop(S.store, k)], k)
+DeleteKey(S, k) == Unwritten([S EXCEPT !.store = Drop(S.store, k), !.xk = Drop(S.xk, k)], k)
 
 Out(S, r, dv) == [S |-> Settle(S), r |-> r, ret |-> TRUE, dv |-> dv]
 Err(S, code, dv) == Out(S, [err |-> code], dv)
@@ -177,7 +220,7 @@ Hang(S, dv) == [S |-> S, r |-> [err |-> ""], ret |-> FALSE, dv |-> dv]
 -----------------------------------------------------------------------------
 (* Set *)
 
-MetaGiven(it) == it.ca # 0 \/ it.cb # 0 \/ it.ua # 0 \/ it.ub # 0 \/ it.ea # 0
+MetaGiven(it) == it.ca > 0 \/ it.cb # 0 \/ it.ua > 0 \/ it.ub # 0 \/ it.ea > 0   \* the setters that are actually called
 
 \* content after keyValuesToTreasure; dv collects the deviations that made a difference
 SetContent(c, it) ==
@@ -201,7 +244,8 @@ SetContent(c, it) ==
 SetMeta(r, it) ==
   [r EXCEPT !.ca = IF it.ca > 0 THEN it.ca ELSE @, !.cb = IF it.cb # 0 THEN it.cb ELSE @,
             !.ua = IF it.ua > 0 THEN it.ua ELSE @, !.ub = IF it.ub # 0 THEN it.ub ELSE @,
-            !.ea = IF it.ea > 0 THEN it.ea ELSE @]
+            !.ea = IF it.ea > 0 \/ (it.ea < 0 /\ ~D("PreEpochInvisible")) THEN it.ea ELSE @,
+            !.xf = @ \/ (Tracking /\ it.ea > 0)]
 
 SetOne(S, it) ==
   LET k == it.k
@@ -214,7 +258,7 @@ SetOne(S, it) ==
       sv == SaveObj(S, k, new, flagNow)
       pendUsed == PendUsed(S, k)
   IN [S |-> sv.S, status |-> sv.status,
-      dv |-> sc.dv \cup (IF sv.status = "UPDATED" /\ ~really THEN {"StickyDirty"} ELSE {})
+      dv |-> sc.dv \cup (IF it.ea < 0 /\ D("PreEpochInvisible") THEN {"PreEpochInvisible"} ELSE {}) \cup (IF sv.status = "UPDATED" /\ ~really THEN {"StickyDirty"} ELSE {})
                    \cup (IF pendUsed THEN {"IncVoidSideEffect"} ELSE {})]
 
 RECURSIVE SetItems(_, _, _, _, _)
@@ -312,7 +356,7 @@ IncMeta(r, m) ==
   IF ~m.on THEN r
   ELSE [r EXCEPT !.ca = IF m.ca THEN NOW ELSE @, !.cb = IF m.cb # 0 THEN m.cb ELSE @,
                  !.ua = IF m.ua THEN NOW ELSE @, !.ub = IF m.ub # 0 THEN m.ub ELSE @,
-                 !.ea = IF m.ea # 0 THEN m.ea ELSE @]
+                 !.ea = IF m.ea # 0 THEN m.ea ELSE @, !.xf = @ \/ (Tracking /\ m.ea # 0)]
 IncMetaGiven(m) == m.on /\ (m.ca \/ m.cb # 0 \/ m.ua \/ m.ub # 0 \/ m.ea # 0)
 
 MetaResp(r) ==
@@ -339,7 +383,7 @@ IncWith(q, S0, m) ==
           LET strictRec == IncMeta(old, m)
               keep == D("IncVoidSideEffect")
               flags == IF D("StickyDirty") THEN old.dirty \/ ty = "void" \/ IncMetaGiven(m) ELSE FALSE
-              rec == [IF keep THEN r1 ELSE strictRec EXCEPT !.dirty = flags]
+              rec == [IF keep THEN r1 ELSE strictRec EXCEPT !.dirty = flags]   \* (no save: the expiration index is not told)
               S1 == IF there
                       THEN LET S2 == [S EXCEPT !.store = Put(S.store, k, rec)]
                            IN IF D("IncMetaNotSaved") THEN S2 ELSE Written(S2, k, rec)
@@ -437,31 +481,85 @@ DoU32Has(q, S0) ==
 -----------------------------------------------------------------------------
 (* expiry-aware calls (C30) *)
 
-\* ShiftExpiredTreasures: the expired records, oldest expiry first (ties: any order), at most n (0 = all)
+\* ShiftExpiredTreasures: the expired records, oldest expiry first (ties: any order), at most n (0 = all).
+\* The walk follows the expiration index and tests the current expiry of each indexed record.
 ExpiredKeys(S) == {k \in DOMAIN S.store : Expired(S.store[k], NOW)}
+Claimable(S, s, n) == LET hits == SelectSeq(s, LAMBDA k : Expired(S.store[k], NOW))
+                      IN IF n = 0 \/ n > Len(hits) THEN hits ELSE SubSeq(hits, 1, n)
 
-\* all orderings of a set as sequences, restricted to those sorted by expiry
-SortedByExpiry(S, ks) ==
-  {s \in [1..Cardinality(ks) -> ks] :
-     /\ \A i, j \in DOMAIN s : i # j => s[i] # s[j]
-     /\ \A i, j \in DOMAIN s : i < j => S.store[s[i]].ea <= S.store[s[j]].ea}
-
-DoShiftExpired(q, S) ==
-  IF ~Exists(S) THEN NotThere(S)
-  ELSE LET cand == ExpiredKeys(S)
-           lim == IF q.n = 0 \/ q.n > Cardinality(cand) THEN Cardinality(cand) ELSE q.n
-       IN {Out(AutoDestroy(DropAll(S, SubSeq(s, 1, lim), 1)),
-               [err |-> "", tr |-> [i \in 1..lim |-> View(s[i], S.store[s[i]], CloneOf(S.store[s[i]].c))]], Lenient(S) \cup HidDv(Sub(S.store, s)))
-           : s \in SortedByExpiry(S, cand)}
+DoShiftExpired(q, S0) ==
+  IF ~Exists(S0) THEN NotThere(S0)
+  ELSE LET S == Built(S0) IN
+       {LET t == Claimable(S, s, q.n)
+        IN Out(AutoDestroy(DropAll(S, t, 1)),
+               [err |-> "", tr |-> [i \in DOMAIN t |-> View(t[i], S.store[t[i]], CloneOf(S.store[t[i]].c))]],
+               Lenient(S) \cup HidDv(Sub(S.store, t)) \cup StaleDv(S))
+        : s \in Orders(Idx(S))}
 
 \* GetByIndex on the expiration index: the records that have an expiry, in expiry order
-DoGetByExpiry(q, S) ==
+DoGetByExpiry(q, S0) ==
+  IF ~Exists(S0) THEN NotThere(S0)
+  ELSE LET S == Built(S0) IN
+       {Out(S, [err |-> "", tr |-> [i \in DOMAIN s |-> Wire(IF q.ord = "desc" THEN s[Len(s) + 1 - i] ELSE s[i],
+                                                             S.store[IF q.ord = "desc" THEN s[Len(s) + 1 - i] ELSE s[i]])]],
+            Lenient(S) \cup HidDv(S.store) \cup StaleDv(S))
+        : s \in Orders(Idx(S))}
+
+\* meta-only patches (PatchTreasures / PatchExpiredTreasures without ops): the request carries
+\*   ea = the new expiry (0: leave), create = ClearExpiredAt, x = UpdatedBy (0: leave)
+\* a patchable record holds a msgpack body (byte array id 5 = magic prefix + empty map)
+PatchStatus(r) == LET ty == TypeOf(r.c) IN
+                  IF ty = "void" THEN "KEY_NOT_FOUND" ELSE IF ty # "bytes" THEN "TYPE_MISMATCH"
+                  ELSE IF r.c.v # 5 THEN "ENCODING_NOT_SUPPORTED" ELSE "PATCHED"
+PatchedRec(r, q) == [r EXCEPT !.ub = IF q.x # 0 THEN q.x ELSE @, !.ea = IF q.create THEN 0 ELSE IF q.ea # 0 THEN q.ea ELSE @,
+                              !.xf = @ \/ (Tracking /\ (q.create \/ q.ea # 0))]
+PatchSave(S, k, q) ==
+  LET old == S.store[k]
+      new == PatchedRec(old, q)
+      flagNow == IF D("StickyDirty") THEN (q.x # 0 \/ q.create \/ q.ea # 0) ELSE ~SameData(new, old)
+  IN SaveObj(S, k, new, flagNow).S
+
+DoPatchMeta(q, S0) ==
+  LET S == Summon(S0) IN
+  IF ~Has(S.store, q.k) THEN {Out(S, [err |-> "", st |-> <<"KEY_NOT_FOUND">>], SummonedEmpty(S))}
+  ELSE LET st == PatchStatus(S.store[q.k])
+       IN {Out(IF st = "PATCHED" THEN PatchSave(S, q.k, q) ELSE S, [err |-> "", st |-> <<st>>], {})}
+
+RECURSIVE PatchSeq(_, _, _, _, _)
+PatchSeq(S, s, i, q, acc) ==
+  IF i > Len(s) THEN [S |-> S, pt |-> acc]
+  ELSE LET k == s[i]
+           st == PatchStatus(S.store[k])
+           S1 == IF st = "PATCHED" THEN PatchSave(S, k, q) ELSE S
+       IN PatchSeq(S1, s, i + 1, q, Append(acc, [k |-> k, st |-> st, ea |-> S1.store[k].ea]))
+
+\* PatchExpiredTreasures: claims the expired records, oldest expiry first, at most n (0 = all)
+DoPatchExpired(q, S0) ==
+  IF ~Exists(S0) THEN {Out(S0, [err |-> "", pt |-> <<>>], {})}
+  ELSE LET S == Built(S0) IN
+       {LET t == Claimable(S, s, q.n)
+            o == PatchSeq(S, t, 1, q, <<>>)
+            \* the claimed records are re-indexed under their new expiry
+            S2 == IF Tracking THEN Resorted(o.S, ((DOMAIN o.S.xk) \ Range(t)) \cup {k \in Range(t) : o.S.store[k].ea # 0}) ELSE o.S
+        IN Out(S2, [err |-> "", pt |-> o.pt], Lenient(S) \cup StaleDv(S))
+        : s \in Orders(Idx(S))}
+
+\* expiry filter (GetByIndexStream over the key index with one TreasureFilter on ExpiredAt): a record
+\* without expiry never matches a comparison; IS_EMPTY / IS_NOT_EMPTY test for "no expiry"
+ExpMatches(ea, fop, ref) ==
+  CASE fop = "empty" -> ea = 0
+    [] fop = "notempty" -> ea # 0
+    [] fop = "lt" -> ea # 0 /\ ea < ref
+    [] fop = "le" -> ea # 0 /\ ea <= ref
+    [] fop = "gt" -> ea # 0 /\ ea > ref
+    [] fop = "ge" -> ea # 0 /\ ea >= ref
+    [] fop = "eq" -> ea # 0 /\ ea = ref
+    [] fop = "ne" -> ea # 0 /\ ea # ref
+
+DoFilterExp(q, S) ==
   IF ~Exists(S) THEN NotThere(S)
-  ELSE LET ks == {k \in DOMAIN S.store : S.store[k].ea # 0}
-       IN {Out(S, [err |-> "", tr |-> [i \in DOMAIN s |-> Wire(IF q.ord = "desc" THEN s[Len(s) + 1 - i] ELSE s[i],
-                                                                S.store[IF q.ord = "desc" THEN s[Len(s) + 1 - i] ELSE s[i]])]],
-               Lenient(S) \cup HidDv(S.store))
-           : s \in SortedByExpiry(S, ks)}
+  ELSE LET hit == [k \in {x \in DOMAIN S.store : ExpMatches(S.store[x].ea, q.fop, q.ea)} |-> S.store[k]]
+       IN {Out(S, [err |-> "", tr |-> WireAll(hit)], Lenient(S) \cup HidDv(hit))}
 
 -----------------------------------------------------------------------------
 (* close and reload (C05): the swamp is written, evicted and loaded again *)
@@ -479,18 +577,19 @@ Reloaded(r) ==
 DoCloseReload(q, S) ==
   IF S.mode = "mem" THEN {Out(S, [err |-> ""], SummonedEmpty(S))}    \* not applicable to in-memory swamps
   ELSE LET exact == [k \in DOMAIN S.store |-> Clean(S.store[k])]
-           \* the file after the closing write: queued records are written from memory, the others
-           \* are whatever the last write left
-           file == [k \in DOMAIN S.store |-> IF (S.mode = "pw" /\ k \in S.wq) \/ ~Has(S.disk, k)
-                                               THEN Clean(S.store[k]) ELSE S.disk[k]]
-           src == IF D("IncMetaNotSaved") THEN file ELSE exact
+           \* the file after the closing flush, as built
+           file == Flush(S).disk
+           keys == IF D("DeleteRecreateResurrects") THEN (DOMAIN file) \cup (DOMAIN exact) ELSE DOMAIN exact
+           src == [k \in keys |-> IF Has(file, k) /\ (D("IncMetaNotSaved") \/ ~Has(exact, k)) THEN file[k] ELSE exact[k]]
            st2 == [k \in DOMAIN src |-> Reloaded(src[k])]
            dv == (IF \E k \in DOMAIN src : Reloaded(src[k]) # src[k] THEN {"GobZero"} ELSE {})
-                 \cup (IF src # exact THEN {"IncMetaNotSaved"} ELSE {})
+                 \cup (IF \E k \in DOMAIN exact : src[k] # exact[k] THEN {"IncMetaNotSaved"} ELSE {})
+                 \cup (IF DOMAIN src # DOMAIN exact THEN {"DeleteRecreateResurrects"} ELSE {})
            \* as built an empty swamp that was summoned has a file, so it is still there after the reload
-           open2 == IF D("EmptySwampExists") THEN S.open ELSE ~IsEmpty(st2)
-       IN {Out([S EXCEPT !.store = st2, !.pend = NoMap, !.disk = src, !.wq = {}, !.open = open2], [err |-> ""],
-               dv \cup (IF open2 /\ IsEmpty(st2) THEN {"EmptySwampExists"} ELSE {}))}
+           open2 == IF D("EmptySwampExists") THEN S.open \/ ~IsEmpty(st2) ELSE ~IsEmpty(st2)
+       IN {Out([S EXCEPT !.store = st2, !.pend = NoMap, !.disk = src, !.wq = {}, !.dq = {}, !.filed = DOMAIN st2, !.open = open2,
+                        !.xb = FALSE, !.xk = NoMap],
+               [err |-> ""], dv \cup (IF open2 /\ IsEmpty(st2) THEN {"EmptySwampExists"} ELSE {}))}
 
 -----------------------------------------------------------------------------
 
@@ -514,14 +613,17 @@ Outs(q, S) ==
     [] q.op = "ShiftExpired" -> DoShiftExpired(q, S)
     [] q.op = "GetByIndex" -> DoGetByExpiry(q, S)
     [] q.op = "CloseReload" -> DoCloseReload(q, S)
+    [] q.op = "PatchMeta" -> DoPatchMeta(q, S)
+    [] q.op = "PatchExpired" -> DoPatchExpired(q, S)
+    [] q.op = "FilterExp" -> DoFilterExp(q, S)
 
-State == [store |-> store, pend |-> pend, open |-> open, disk |-> disk, wq |-> wq, mode |-> mode]
+State == [store |-> store, pend |-> pend, open |-> open, disk |-> disk, wq |-> wq, dq |-> dq, filed |-> filed, xb |-> xb, xk |-> xk, mode |-> mode]
 
 \* what a client can observe of an outcome (the ghost parts of the state are left out)
 Proj(o) == [r |-> o.r, ret |-> o.ret, open |-> o.S.open, store |-> [k \in DOMAIN o.S.store |-> Clean(o.S.store[k])]]
 
 Init ==
-  /\ store = NoMap /\ pend = NoMap /\ open = FALSE /\ disk = NoMap /\ wq = {}
+  /\ store = NoMap /\ pend = NoMap /\ open = FALSE /\ disk = NoMap /\ wq = {} /\ dq = {} /\ filed = {} /\ xb = FALSE /\ xk = NoMap
   /\ mode \in {"mem", "p0", "pw"}
   /\ last = [q |-> [op |-> "Init"], r |-> [err |-> ""], ret |-> TRUE, dv |-> {}, before |-> NoMap]
   /\ ops = 0
@@ -529,7 +631,7 @@ Init ==
 Call(q) ==
   /\ last.ret                       \* single client: nothing can be sent after a call that never returns
   /\ \E o \in Outs(q, State) :
-       /\ store' = o.S.store /\ pend' = o.S.pend /\ open' = o.S.open /\ disk' = o.S.disk /\ wq' = o.S.wq
+       /\ store' = o.S.store /\ pend' = o.S.pend /\ open' = o.S.open /\ disk' = o.S.disk /\ wq' = o.S.wq /\ dq' = o.S.dq /\ filed' = o.S.filed /\ xb' = o.S.xb /\ xk' = o.S.xk
        /\ last' = [q |-> q, r |-> o.r, ret |-> o.ret, dv |-> o.dv, before |-> store]
   /\ ops' = ops + 1
   /\ UNCHANGED mode
